@@ -327,6 +327,7 @@ def one_codec(sio, spec, opts):
         t0 = PE.value_text(obj)
     except Exception as e:
         t0 = "<abs failed: %s>" % type(e).__name__
+    x0 = masked_extras(obj)
     rec["type0"] = f"{type(obj).__module__}.{type(obj).__qualname__}"
     try:
         data = sio.dumps(obj)
@@ -358,9 +359,13 @@ def one_codec(sio, spec, opts):
         return rec
     t2 = PE.value_text(obj2)
     rec["load"] = "ok:" + t2
-    rec["same"] = t2 == t0
+    # the canonical text is what the Coq model can say; attributes of masked arrays it has no notion of (fill_value, hard
+    # mask) are compared beside it
+    x2 = masked_extras(obj2)
+    rec["same"] = t2 == t0 and x2 == x0
+    rec["extras_only"] = t2 == t0 and x2 != x0      # the difference lies outside what the pval abstraction carries
     if not rec["same"]:
-        rec["t0"] = t0[:3000]
+        rec["t0"] = t0[:3000] + ("" if x2 == x0 else f" masked fill_value/hardmask before {x0} after {x2}")
     k = opts.get("cycles", 0)
     if k:
         cur, stable = obj2, True
@@ -502,6 +507,24 @@ def norm_archive(data):
     if bad_crc:
         wf.append(f"bad CRC in member {bad_crc}")
     return PE.archive_text(ns, alias_orphans(nm)), cont, wf, ctypes
+
+
+def masked_extras(obj):
+    """(fill_value, hardmask) of every masked array inside obj, in the order absval visits them"""
+    import absval
+    out = []
+
+    def walk(a):
+        if isinstance(a, list):
+            if len(a) >= 5 and a[0] == "masked":
+                out.append([a[3], a[4]])
+            for x in a:
+                walk(x)
+    try:
+        walk(absval.abs_value(obj))
+    except Exception as e:  # noqa
+        return ["abs failed: " + type(e).__name__]
+    return out
 
 
 def one_sinks(sio, spec, opts):
